@@ -192,7 +192,7 @@ def side_case(seed, quick=True):
 def run(ctx):
     quick = ctx.tier == 'quick'
     lib.stage_proof(ctx, PROP_FILES, ['Check/C20.vo'])
-    n = 150 if quick else 2500
+    n = 150 if quick else 5000
     cases, metas = [], []
     for k in range(n):
         cs = ctx.rng.getrandbits(48)
@@ -212,7 +212,7 @@ def run(ctx):
         cases.append(lit)
         metas.append({'desc': {'gen': 'gen_int_case', 'case_seed': cs, 'case': d}, 'tags': {'which': 'sampling'}})
     bad = lib.stage_correspondence(ctx, 'sampling', REQ, 'check_C20', cases, metas)
-    n_side = 250 if quick else 4000
+    n_side = 250 if quick else 12000
     if bad:
         n_side *= 3
     for k in range(n_side):
